@@ -147,6 +147,12 @@ def _run(ctx, g, c, rng, craft):
     if craft:
         ctx.count("craft:u=0 on -inf row", len(placed))
 
+    # ---- outside the property's domain: every evaluated likelihood is -inf (no finite value next to them)
+    ev_rows = [r for e_ in gen.calls if e_["method"] == "ll" for r in e_["rows"]]
+    if profile is not None and ev_rows and all(0 <= r < N and profile[r] == -np.inf for r in ev_rows):
+        ctx.count("out of domain: all evaluated likelihoods -inf (skipped)")
+        return
+
     # ---- likelihood per library row for the model / oracle
     if profile is None:
         libll = independent_ll(c)
